@@ -26,6 +26,10 @@ QuickMixes == {[t \in Threads |-> IF t = "t1" THEN a ELSE b] :
 GetMixes == {[t \in Threads |-> IF t = "t1" THEN a ELSE b] :
                 a \in {Op("get", "s1", "A"), Op("get", "s1", "B"), Op("pget", "root", "A")},
                 b \in {Op("get", "s1", "A"), Op("get", "s1", "B"), Op("get", "s2", "A"), Op("get", "s1", "T"), Op("pget", "root", "A"), Op("get", "s1", "S")}}
+\* aliases and multiple results of one scoped constructor resolved concurrently, alone and against a closer
+SharedMixes == {[t \in Threads |-> IF t = "t1" THEN a ELSE b] :
+                   a \in {Op("get", "s1", "I"), Op("get", "s1", "M"), Op("close", "s1", NONE)},
+                   b \in {Op("get", "s1", "I"), Op("get", "s1", "J"), Op("get", "s1", "M"), Op("get", "s1", "N")}}
 \* closers against closers (idempotence, cascade, cancellation)
 CloseMixes == {[t \in Threads |-> IF t = "t1" THEN a ELSE b] : a \in Closers, b \in Closers}
 \* three threads: two users and a closer
